@@ -33,7 +33,30 @@ def _ex_add_fragment():
                        'polymer_reactivities': s.polymer_reactivities, 'fragment_reactivities': s.fragment_reactivities}
 
 
-contract(
+def _atom_attrs(g, n='n'):
+    """What hydrogen completion (rebuild_h_atoms) needs of an atom: element, membership, fragment name, weight ..."""
+    return ("has_attr({g}, {n}, 'element') and has_attr({g}, {n}, 'fragid') and has_attr({g}, {n}, 'fragname') and "
+            "has_attr({g}, {n}, 'weight')").format(g=g, n=n)
+
+
+def _atom_bonded(g, n='n'):
+    """... and a hydrogen that is not a fragment of its own is bonded to another atom."""
+    return ("implies(has_attr({g}, {n}, 'element') and attr({g}, {n}, 'element') == 'H' and "
+            "not (has_attr({g}, {n}, 'single_h_frag') and attr({g}, {n}, 'single_h_frag')), "
+            "any(has_edge({g}, {n}, m) and m != {n} for m in nodes({g})))").format(g=g, n=n)
+
+
+def _all(pred, g):
+    return "all(" + pred(g) + " for n in nodes(" + g + "))"
+
+
+_TMPL_ATTRS = "all(" + _all(_atom_attrs, "self.fragment_dict[f]") + " for f in keys(self.fragment_dict))"
+_TMPL_BONDED = "all(" + _all(_atom_bonded, "self.fragment_dict[f]") + " for f in keys(self.fragment_dict))"
+_KEEPS_ATTRS = "implies(" + _TMPL_ATTRS + " and old(" + _all(_atom_attrs, "molecule") + "), " + _all(_atom_attrs, "molecule") + ")"
+_KEEPS_BONDED = "implies(" + _TMPL_BONDED + " and old(" + _all(_atom_bonded, "molecule") + "), " + _all(_atom_bonded, "molecule") + ")"
+
+
+_AF = dict(
     target='cgsmiles.sample:MoleculeSampler.add_fragment', serves=['C16', 'C17'],
     self_fields={'fragment_dict': 'Dict[Str,Graph:tmpl]', 'terminal_bonds': 'List[Str]'},
     types={'molecule': 'Graph:mol', 'open_bonds': 'DefaultDict[Str,List[Int]]',
@@ -63,6 +86,7 @@ contract(
         "all(not member(x, self.terminal_bonds) for x in attr(molecule, site, 'bonding')))",
         # the partner descriptor of the new copy is consumed
         "attr(molecule, newnode, 'bonding') == without_first(partner_before, cb)",
+        # atomistic fragments: if every template atom and every atom of the molecule is fit for hydrogen completion, so is every atom afterwards
     ],
     raises={'ValueError': {'when': None}, 'IndexError': {'when': None}, 'OSError': {'when': None}},
     modifies=["molecule"],
@@ -98,10 +122,24 @@ contract(
     wf_all_graphs=True,
     callee_clauses={'merge_graphs': ['implies(has_node(target_graph, n), n in result', 'forall_int(lambda n: has_node(source_graph, n) ==',
                                      'node_unchanged(source_graph, n)', "same_attr(source_graph, result[n], target_graph, n, 'bonding')",
+                                     'not old(has_node(source_graph, m))', 'has_edge(source_graph, result[a], result[b])',
+                                     'old(has_node(source_graph, u)) or old(has_node(source_graph, v))',
                                      'edge_unchanged(source_graph, u, v)'],
                     'find_complementary_bonding_descriptor': ['member(c, ellegible_descriptors) and complementary']},
     examples=_ex_add_fragment,
 )
+contract(**_AF)
+# atomistic fragments: if every template atom and every atom of the molecule is fit for hydrogen completion, so is every atom afterwards
+_FIT_T = [_TMPL_ATTRS, _TMPL_BONDED]
+_FIT_M = [_all(_atom_attrs, "molecule"), _all(_atom_bonded, "molecule")]
+_AFA = dict(_AF)
+_AFA.update(variant='atomistic', requires=_AF['requires'] + _FIT_T + _FIT_M, ensures=[_AF['ensures'][0]] + _FIT_M, on_call={}, ghosts={},
+            after={k: v + [_FIT_M[0],
+                           # atoms that were there keep their bonds; a copied hydrogen is bonded to the copy of its template neighbour
+                           "all(implies(old(has_node(molecule, n)), " + _atom_bonded("molecule") + ") for n in nodes(molecule))",
+                           "all(implies(not old(has_node(molecule, n)), " + _atom_bonded("molecule") + ") for n in nodes(molecule))",
+                           _FIT_M[1]] for k, v in _AF['after'].items()})
+contract(**_AFA)
 
 
 # ------------------------------------------------------------------------------------------------ assumed callee contracts
@@ -150,7 +188,7 @@ def _ex_sample():
                 yield {'self': MoleculeSampler.from_fragment_string(text, seed=seed, **kw), 'target_weight': t, 'start_fragment': None}
 
 
-contract(
+_SA = dict(
     target='cgsmiles.sample:MoleculeSampler.sample', variant='coarse', serves=['C17', 'C16'],
     self_fields={'fragment_dict': 'Dict[Str,Graph:tmpl]', 'terminal_bonds': 'List[Str]',
                  'fragments_by_bonding': 'DefaultDict[Str,List[Tuple[Str,Int]]]', 'polymer_reactivities': 'Dict[Str,Real]',
@@ -178,3 +216,25 @@ contract(
     opaque=['is_descriptor', 'complementary', 'ends_in_digit', 'kind_ok'], heap_invariants=['descriptors', 'fragid'],
     examples=_ex_sample,
 )
+contract(**_SA)
+
+# All-atom mode (the default): additionally every atom handed to pysmiles' hydrogen completion is fit for it -- it carries element,
+# membership, fragment name and weight, and a hydrogen that is not a fragment of its own is bonded -- provided the templates are.
+_FIT_MS = [_all(_atom_attrs, "molecule"), _all(_atom_bonded, "molecule")]
+_SAA = dict(_SA)
+_SAA.update(
+    variant='atomistic',
+    requires=[r for r in _SA['requires'] if r != "not self.all_atom"] + ["self.all_atom", _TMPL_ATTRS, _TMPL_BONDED],
+    loops={0: Loop(kind='while', over='current_weight < target_weight', modifies=["molecule"],
+                   invariant=_SA['loops'][0].invariant + _FIT_MS)},
+    callee_variants={'add_fragment': 'atomistic'},
+    callee_clauses={'merge_graphs': ['implies(has_node(target_graph, n), n in result', 'forall_int(lambda n: has_node(source_graph, n) ==',
+                                     "same_attr(source_graph, result[n], target_graph, n, 'bonding')",
+                                     'not old(has_node(source_graph, m))', 'has_edge(source_graph, result[a], result[b])',
+                                     'has_edge(source_graph, m, result[k])'],
+                    'find_open_bonds': _SA['callee_clauses']['find_open_bonds'],
+                    'add_fragment': ['result[0] == molecule', "has_attr(molecule, n, 'element')"]},
+    after={"merge_graphs(molecule, fragment)": _FIT_MS},
+)
+contract(**_SAA)
+
